@@ -270,6 +270,32 @@ def run(ck):
     c08.run_for(ck, Radio(ck), agg)
     # "multicast() to level L ...": a frame written with an explicit level as direction is transmitted to that level's address (R04.9)
     c04.direction(ck, agg)
+    # R14.5 the relay switch: after `multicast_relay = x` the node relays iff x and allow_multicast - whatever the switch held before
+    # (an assignment that is silently dropped leaves a relay running that the application switched off)
+    mixc = ck.prog.cls("network.mixins", "NetworkMixin")
+    f_rs, f_rg = ck.prog.method(mixc, "multicast_relay", "set"), ck.prog.method(mixc, "multicast_relay", "get")
+    nn5 = net.NetNode(ck, "rf24_network", "RF24Network")
+    for enable in (True, False):
+        for allow in (True, False):
+            for old in (True, False):
+                st5, node5 = nn5.fresh(fields={"allow_multicast": allow, net.FN("_relay_enabled"): old})
+                for out in nn5.run(f_rs, node5, [Const(enable)], st5):
+                    if out.kind != "return":
+                        continue
+                    stored = out.state.heap[node5.ident].fields.get(net.FN("_relay_enabled"))
+                    sv = const_of(norm(stored)) if stored is not None and hasattr(stored, "key") else None
+                    agg.add("R14.5", f_rs, "`multicast_relay = x` stores x and allow_multicast - a switch-off always sticks, whatever the switch held before",
+                            sv is not None and bool(sv) == bool(enable and allow),
+                            "multicast_relay = %r with allow_multicast %r (was %r): the switch is left %r - it resurfaces when multicast is allowed again" % (enable, allow, old, stored))
+                    s5 = out.state.fork()
+                    s5.trace = []
+                    for o2 in nn5.run(f_rg, node5, [], s5):
+                        agg.add("R14.5", f_rs, "after `multicast_relay = x` the node relays iff x and allow_multicast, whatever the switch held before",
+                                o2.kind == "return" and value_matches(o2.value, bool(enable and allow)),
+                                "multicast_relay = %r with allow_multicast %r (was %r): the getter then returns %r" % (enable, allow, old, o2.value))
+    # the relay re-broadcasts the frame it received: the queue it hands the frame to first must leave it as it is (R06.5 caller's frame)
+    from . import c06
+    c06.caller_frame_untouched(ck, agg)
     agg.flush()
     ck.floor("R04.8", "re-assignment scenarios", n5, 4)
     ck.floor("R14.1", "level scenarios", n1, 15)
